@@ -196,6 +196,41 @@ void qp_run(const qprog *p)
 	vx_focus_end();
 }
 
+// main-queue variant: every script runs on its own client thread, thread 0 calls dispatch_main()
+// (which on Linux leaves through pthread_exit and hands the main queue to the pool); a finisher
+// thread ends the execution once every item has run.
+static void finisher(void *arg)
+{
+	(void)arg;
+	int *a[2] = { &g_threads_done, (int *)(intptr_t)g_p->nthr };
+	vx_wait_until(pred_int_ge, a);
+	int *b[2] = { &g_items_ended, (int *)(intptr_t)g_items_expected };
+	vx_wait_until(pred_int_ge, b);
+	vx_end();
+}
+void qp_run_main(const qprog *p)
+{
+	g_p = p;
+	g_items_expected = g_items_ended = g_gate_open = g_threads_done = 0;
+	memset(g_ended, 0, sizeof g_ended);
+	vx_set_horizon(12ull * 1000000000ull);
+	for (int t = 0; t < p->nthr; t++) for (int k = 0; k < p->nops[t]; k++) {
+		char o = p->ops[t][k].op;
+		if (op_is_item(o)) g_items_expected += op_iters(o) ? op_iters(o) : 1;
+	}
+	g_group = dispatch_group_create();
+	g_xsem = dispatch_semaphore_create(0); g_nx = 0;
+	for (int i = 0; i < p->nq; i++) {
+		if (p->q[i].kind == 'M') Q[i] = dispatch_get_main_queue();
+		else if (p->q[i].kind == 'S') Q[i] = dispatch_queue_create_with_target("vx.q", NULL, p->q[i].target >= 0 ? Q[p->q[i].target] : NULL);
+		else vx_fail("main-queue programs use M and S queues only");
+	}
+	vx_focus_begin();
+	for (int t = 0; t < p->nthr; t++) vx_thread(client, (void *)(intptr_t)t);
+	vx_thread(finisher, NULL);
+	dispatch_main();
+}
+
 // ---- oracles ------------------------------------------------------------------
 
 typedef struct { int id, thread, k, q; char op; int call, ret; int nint; int iid[3], st[3], en[3]; } qitem;
@@ -294,7 +329,8 @@ static qprog g_prog;
 void qp_table_run(const char *const *tab, int v)
 {
 	if (qp_parse(tab[v], &g_prog)) vx_fail("cannot parse program '%s'", tab[v]);
-	qp_run(&g_prog);
+	if (g_prog.q[0].kind == 'M') qp_run_main(&g_prog);
+	else qp_run(&g_prog);
 }
 int qp_table_check(const char *const *tab, int v, const vx_log *l, char *msg, size_t len)
 {
